@@ -163,9 +163,11 @@ fn run_snapshot_inner(args: &SnapshotArgs, cli: &Cli) -> crate::Result<i32> {
     #[cfg(feature = "verif-hooks")]
     crate::verif_hooks::point("snap:before_save");
     // Save with retention policy applied
-    history.save_with_retention(history_path, &trend_config)?;
+    let outcome = history.save_with_retention(history_path, &trend_config)?;
 
-    if !cli.quiet {
+    // A skipped save (lock time-out, already reported as a warning) recorded nothing:
+    // do not claim the snapshot was recorded.
+    if !cli.quiet && outcome.is_saved() {
         print_snapshot_summary(&project_stats, git_context.as_ref(), history_path);
     }
 
